@@ -31,6 +31,7 @@ META = {
 
 
 ORDMIN = [0]     # run parameter ordmin used by the carriers of the current job
+STEP = [1]       # run parameter step (SSI only; the dialog's y axis stays the column index)
 
 
 class Ev:
@@ -56,7 +57,7 @@ def carrier(W, plot, table=None, freq=None):
         algo.result.Fn_poles = table
         algo.result.Lab = np.zeros(table.shape, dtype=int)
         # non-default ordmin: the pole tables still start at column 0 = order 0
-        algo.run_params.ordmin, algo.run_params.ordmax = ORDMIN[0], table.shape[1] - 1
+        algo.run_params.ordmin, algo.run_params.ordmax, algo.run_params.step = ORDMIN[0], table.shape[1] - 1, STEP[0]
     if freq is not None:
         algo.result.freq = freq
         algo.result.S_val = None
@@ -179,6 +180,10 @@ def jobs(tier):
         for ords in ((), (1,), (2, 0)):
             out.append({"ob": "O1", "cfg": {"plot": plot, "shape": list(shp), "pre_orders": list(ords), "button": 1, "ordmin": 1}})
         out.append({"ob": "O3", "cfg": {"plot": plot, "shape": [2, 3], "seq": ["press", "b1", "b1"], "ordmin": 1}})
+    # SSI run with a non-default order step: the clicked y coordinate is still a column index of the pole table
+    for ords in ((), (1,), (2, 0)):
+        out.append({"ob": "O1", "cfg": {"plot": "SSI", "shape": list(shp), "pre_orders": list(ords), "button": 1, "step": 2}})
+    out.append({"ob": "O3", "cfg": {"plot": "SSI", "shape": [2, 3], "seq": ["press", "b1", "b1"], "step": 2}})
     out.append({"ob": "O2", "cfg": {"plot": "SSI", "keys": True}})
     kinds = ["b1", "b2", "b3", "press", "release"]
     for n in range(1, hist + 1):
@@ -195,12 +200,16 @@ def jobs(tier):
     for plot in ("SSI", "pLSCF"):
         for ords in itertools.product(range(1, 3), repeat=2):
             out.append({"ob": "O4", "cfg": {"plot": plot, "shape": [2, 3], "orders": list(ords)}})
+        # two picked poles with the same frequency at different orders (the selection is sorted, not strictly)
+        out.append({"ob": "O4", "cfg": {"plot": plot, "shape": [2, 3], "orders": [1, 2], "tie": True}})
+        out.append({"ob": "O4", "cfg": {"plot": plot, "shape": [2, 3], "orders": [2, 1], "tie": True}})
     return out
 
 
 def run(job, tier):
     cfg = job["cfg"]
     ORDMIN[0] = cfg.get("ordmin", 0)
+    STEP[0] = cfg.get("step", 1)
     if job["ob"] in ("O1", "O2"):
         if cfg.get("keys"):
             return run_keys(cfg, tier)
@@ -307,7 +316,7 @@ def _real_carrier(plot, table=None, freq=None):
     algo.result, algo.run_params, algo.fs = _Obj(), _Obj(), 100.0
     if table is not None:
         algo.result.Fn_poles = table
-        algo.run_params.ordmin, algo.run_params.ordmax = ORDMIN[0], table.shape[1] - 1
+        algo.run_params.ordmin, algo.run_params.ordmax, algo.run_params.step = ORDMIN[0], table.shape[1] - 1, STEP[0]
     if freq is not None:
         algo.result.freq = freq
     c = object.__new__(sfp.SelFromPlot)
@@ -524,7 +533,7 @@ def run_history(cfg, tier):
         if table is not None:
             algo.result.Fn_poles = table
             algo.result.Lab = np.zeros(table.shape, dtype=int)
-            algo.run_params.ordmin, algo.run_params.ordmax = ORDMIN[0], table.shape[1] - 1
+            algo.run_params.ordmin, algo.run_params.ordmax, algo.run_params.step = ORDMIN[0], table.shape[1] - 1, STEP[0]
         else:
             algo.result.freq, algo.result.S_val = freq, None
         T = W.cls(sfp.SelFromPlot)
@@ -632,13 +641,20 @@ def run_handover(cfg, tier):
         Xi = fresh("Xi", (R, C))
         Phi = fresh("Phi", (R, C, nch), complex_=True)
         rows = [Explorer.cur.choose(R, f"row{i}") for i in range(len(cfg["orders"]))]
-        pairs = [(Fn[r, o].copy(), o) for r, o in zip(rows, cfg["orders"])]
+        if cfg.get("tie"):
+            # equal frequencies are concrete floats (as they are in a real pole table): value-keyed containers see them as equal
+            for r, o in zip(rows, cfg["orders"]):
+                Fn[r, o] = lift(5.0)
+        pairs = [((np.float64(5.0) if cfg.get("tie") else Fn[r, o].copy()), o) for r, o in zip(rows, cfg["orders"])]
         for (f, o), r in zip(pairs, rows):
+            if cfg.get("tie"):
+                continue
             Explorer.cur.assume(z3.Not(Fn[r, o].nan))
             Explorer.cur.assume(Fn[r, o].z > 0)
         # the dialog keeps the selection sorted by frequency
         for i in range(len(pairs) - 1):
-            Explorer.cur.assume(pairs[i][0].z < pairs[i + 1][0].z)
+            if not cfg.get("tie"):
+                Explorer.cur.assume(pairs[i][0].z < pairs[i + 1][0].z)
         st["handed"] = ([p[0] for p in pairs], [p[1] for p in pairs])
         st.update(Fn=Fn, Xi=Xi, Phi=Phi, pairs=pairs, rows=rows)
         cls = assi.SSIdat if plot == "SSI" else aplscf.pLSCF
